@@ -177,11 +177,11 @@ pub fn prop() -> Prop {
         subs: vec![
             Sub {
                 name: "random-order",
-                kind: Kind::Random { f: random_order, quick: 40_000, thorough: 2_400_000, len: 400 },
+                kind: Kind::Random { f: random_order, quick: 200_000, thorough: 4_000_000, len: 400 },
             },
             Sub {
                 name: "random-k1-free",
-                kind: Kind::Random { f: random_no_k1, quick: 40_000, thorough: 2_400_000, len: 400 },
+                kind: Kind::Random { f: random_no_k1, quick: 200_000, thorough: 4_000_000, len: 400 },
             },
         ],
         direct: Some(direct),
